@@ -408,7 +408,7 @@ class LP_Solver:
             if (hasattr(pair, 'rank_lecturer')):
               up_bound += pair.rank_lecturer**2 * lecturer_multiplier
         obj = LpVariable(
-                "obj_mincost", 
+                "obj_minsqcost", 
                 lowBound = 0, 
                 upBound = up_bound,
                 cat = "Integer")
